@@ -111,7 +111,7 @@ Lemma no_list_arm t env w :
   no_list t = true -> write_field env t = Ok w -> fw_list w = None.
 Proof.
   intros Hn Hw.
-  destruct t as [k r l0|sf r l0|r|r l0|r l0|f e l0|f64 fr l0|r l0|r l0|tr l0|od ts l0|fl orl|orr l0]; cbn [no_list] in Hn;
+  destruct t as [k r l0|sf r l0|r|r l0|r l0|f e l0|f64 fr l0|r l0|r l0|tr l0|od ts l0|rn fl orl|rn orr l0]; cbn [no_list] in Hn;
     try (destruct l0; [discriminate|]); cbn [write_field] in Hw; try (destruct fr; [discriminate Hw|]);
     try (apply obind_ok in Hw as [x [Hx Hw]]); inversion Hw; subst w; cbn [fw_list with_arm]; try reflexivity.
   inversion Hx. reflexivity.
@@ -126,7 +126,7 @@ Proof.
   assert (Hls : list_seen m w = fw_list w).
   { destruct m; try reflexivity. cbn [list_seen]. symmetry. eapply no_list_arm; eauto. }
   rewrite Hls. clear Hls Hnl. unfold vt_seen.
-  destruct t as [k r l|sf r l|r|r l|r l|f e l|f64 fr l|r l|r l|tr l|od ts l|fl orl|orr l]; cbn [write_field] in Hw.
+  destruct t as [k r l|sf r l|r|r l|r l|f e l|f64 fr l|r l|r l|tr l|od ts l|rn fl orl|rn orr l]; cbn [write_field] in Hw.
   - (* integer *)
     apply obind_ok in Hw as [vo [Hv Hw]]. inversion Hw; subst w; clear Hw.
     cbn [fw_kind fw_val fw_list fw_ext fw_key].
@@ -169,17 +169,24 @@ Proof.
     destruct id62_not_wellknown as [Hd Hn].
     cbn [fw_kind read_field fw_val fw_list fw_ext fw_key norm_fty].
     destruct f as [[|p| |]|].
-    + (* informal: only as a singular property, and never with list rules (compile error) *)
+    + (* informal: only as a singular property *)
       destruct m; try discriminate.
-      destruct l as [p0|]; [discriminate|]. inversion Hl; subst lst. unfold read_string. cbn.
-      destruct e as [[[[[|]|pp ee]|] tn]|]; reflexivity.
+      * destruct l as [p0|]; inversion Hl; subst lst; unfold read_string; cbn;
+          destruct e as [[[[[|]|pp ee]|] tn]|]; reflexivity.
+      * (* an array item: recognised through its unique_string foreign key *)
+        destruct l as [p0|]; [|discriminate]. inversion Hl; subst lst. unfold read_string. cbn.
+        destruct e as [[[[[|]|pp ee]|] tn]|]; reflexivity.
     + (* custom *)
       destruct m; try discriminate.
-      apply andb_true_iff in Hrt as [H3 Hnl]. destruct l as [p0|]; [discriminate|].
-      inversion Hl; subst lst. apply negb_true_iff in H3.
-      unfold read_string. cbn [only_ty c_ty vt_of]. rewrite H3.
-      destruct (str_eqb p date_pattern), (str_eqb p number_pattern); cbn;
+      apply andb_true_iff in Hrt as [H3 Hwk]. apply negb_true_iff in H3. destruct l as [p0|].
+      * (* with list rules: a unique_string foreign key; the key annotation keeps the format *)
+        cbn [is_some negb orb] in Hwk. apply andb_true_iff in Hwk as [H1 H2]. apply negb_true_iff in H1, H2.
+        inversion Hl; subst lst. unfold read_string. cbn [only_ty c_ty vt_of]. rewrite H1, H2, H3. cbn.
         destruct e as [[[[[|]|pp ee]|] tn]|]; reflexivity.
+      * inversion Hl; subst lst.
+        unfold read_string. cbn [only_ty c_ty vt_of]. rewrite H3.
+        destruct (str_eqb p date_pattern), (str_eqb p number_pattern); cbn;
+          destruct e as [[[[[|]|pp ee]|] tn]|]; reflexivity.
     + (* uuid *)
       destruct l as [p0|]; inversion Hl; subst lst; unfold read_string; cbn;
         destruct e as [[[[[|]|pp ee]|] tn]|]; destruct m; reflexivity.
@@ -225,12 +232,12 @@ Qed.
 Definition list_of (t : fty) : option lpay :=
   match t with
   | TInt _ _ l | TStr _ _ l | TBool _ l | TEnum _ l | TKey _ _ l | TFloat _ _ l | TDate _ l
-  | TDecimal _ l | TTimestamp _ l | TAny _ _ l | TOneof _ l => l
-  | TBytes _ | TObject _ _ => None
+  | TDecimal _ l | TTimestamp _ l | TAny _ _ l | TOneof _ _ l => l
+  | TBytes _ | TObject _ _ _ => None
   end.
 
 Lemma norm_fty_list env t : list_of (norm_fty env t) = list_of t.
-Proof. destruct t as [| | | | | | | | | | |fl [[[mn|] [mx|]]|]|]; reflexivity. Qed.
+Proof. destruct t as [| | | | | | | | | | |rn fl [[[mn|] [mx|]]|]|]; reflexivity. Qed.
 
 Ltac break_in H :=
   repeat (cbn [obind] in H;
@@ -273,7 +280,7 @@ Proof.
     destruct m; try discriminate. cbn [list_seen]. intro H.
     apply read_field_list_none in H. rewrite norm_fty_list in H.
     destruct t; cbn [no_list list_of] in *; try discriminate; destruct l; discriminate.
-  - destruct t as [k r l|sf r l|r|r l|r l|f e l|f64 fr l|r l|r l|tr l|od ts l|fl orl|orr l];
+  - destruct t as [k r l|sf r l|r|r l|r l|f e l|f64 fr l|r l|r l|tr l|od ts l|rn fl orl|rn orr l];
       try (destruct m; discriminate).
     + (* string *)
       inversion Hw; subst w; clear Hw. cbn [fw_kind read_field norm_fty].
@@ -297,17 +304,20 @@ Proof.
       destruct f as [[|p| |]|].
       * (* informal, not singular *)
         destruct m; try discriminate; cbn [j5_seen list_seen];
-          (destruct l as [p0|]; [discriminate|]); inversion Hl; subst lst;
+          destruct l as [p0|]; try discriminate; inversion Hl; subst lst;
           unfold read_string; cbn; destruct e; cbn; discriminate.
       * (* custom *)
         destruct m.
-        -- (* singular: well-known pattern, or list rules *)
+        -- (* singular: the id62 pattern, or a well-known pattern under list rules *)
            cbn [j5_seen list_seen fw_ext fw_list]. apply andb_false_iff in Hb as [Hp|Hls].
            ++ apply negb_false_iff in Hp. apply str_eqb_eq in Hp. subst p.
               unfold read_string. cbn [vt_of only_ty c_ty]. rewrite Hd, Hn, str_eqb_refl.
               intro H. break_in H; inversion H.
            ++ destruct l as [p0|]; [|discriminate]. inversion Hl; subst lst.
-              unfold read_string. cbn [vt_of only_ty c_ty]. intro H. break_in H; inversion H.
+              cbn [is_some negb orb] in Hls.
+              unfold read_string. cbn [vt_of only_ty c_ty].
+              destruct (str_eqb p date_pattern); [cbn; discriminate|].
+              destruct (str_eqb p number_pattern); [cbn; discriminate|]. discriminate Hls.
         -- cbn [j5_seen list_seen]. unfold read_string. intro H. break_in H; inversion H.
         -- cbn [j5_seen list_seen]. unfold read_string. intro H. break_in H; inversion H.
       * destruct m; discriminate.
@@ -343,7 +353,7 @@ Qed.
 Lemma kind_not_map env t w : write_field env t = Ok w -> forall v, fw_kind w <> KdMapEntry v.
 Proof.
   intros Hw v.
-  destruct t as [k r l|sf r l|r|r l|r l|f e l|f64 fr l|r l|r l|tr l|od ts l|fl orl|orr l]; cbn [write_field] in Hw; try (destruct fr; [discriminate Hw|]);
+  destruct t as [k r l|sf r l|r|r l|r l|f e l|f64 fr l|r l|r l|tr l|od ts l|rn fl orl|rn orr l]; cbn [write_field] in Hw; try (destruct fr; [discriminate Hw|]);
     try (apply obind_ok in Hw as [x [Hx Hw]]); inversion Hw; subst w; cbn [fw_kind];
     try discriminate.
   - destruct k; discriminate.
@@ -355,7 +365,7 @@ Lemma write_field_primary_ty env t w :
   match fw_key w with Some k => kx_primary k | None => false end = is_primary_ty t.
 Proof.
   intro Hw.
-  destruct t as [k r l|sf r l|r|r l|r l|f e l|f64 fr l|r l|r l|tr l|od ts l|fl orl|orr l]; cbn [write_field] in Hw; try (destruct fr; [discriminate Hw|]);
+  destruct t as [k r l|sf r l|r|r l|r l|f e l|f64 fr l|r l|r l|tr l|od ts l|rn fl orl|rn orr l]; cbn [write_field] in Hw; try (destruct fr; [discriminate Hw|]);
     try (apply obind_ok in Hw as [x [Hx Hw]]);
     inversion Hw; subst w; cbn [fw_key is_primary_ty]; try reflexivity.
   destruct e as [[ty tn]|]; [|reflexivity]. cbn. destruct ty as [[[|]|]|]; reflexivity.
@@ -384,7 +394,7 @@ Lemma write_field_constrained env t w :
   write_field env t = Ok w -> is_some (fw_val w) = items_constrained t.
 Proof.
   intro Hw.
-  destruct t as [k r l|sf r l|r|r l|r l|f e l|f64 fr l|r l|r l|tr l|od ts l|fl orl|orr l]; cbn [write_field] in Hw; try (destruct fr; [discriminate Hw|]);
+  destruct t as [k r l|sf r l|r|r l|r l|f e l|f64 fr l|r l|r l|tr l|od ts l|rn fl orl|rn orr l]; cbn [write_field] in Hw; try (destruct fr; [discriminate Hw|]);
     try (apply obind_ok in Hw as [x [Hx Hw]]);
     inversion Hw; subst w; cbn [fw_val items_constrained]; try reflexivity.
   - destruct r as [r|].
@@ -404,7 +414,7 @@ Lemma write_field_not_empty env t w c :
   write_field env t = Ok w -> fw_val w = Some c -> c_ty c <> Some CEmpty.
 Proof.
   intros Hw Hc.
-  destruct t as [k r l|sf r l|r|r l|r l|f e l|f64 fr l|r l|r l|tr l|od ts l|fl orl|orr l]; cbn [write_field] in Hw; try (destruct fr; [discriminate Hw|]);
+  destruct t as [k r l|sf r l|r|r l|r l|f e l|f64 fr l|r l|r l|tr l|od ts l|rn fl orl|rn orr l]; cbn [write_field] in Hw; try (destruct fr; [discriminate Hw|]);
     try (apply obind_ok in Hw as [x [Hx Hw]]);
     inversion Hw as [Hweq]; rewrite <- Hweq in Hc; cbn [fw_val] in Hc; try discriminate.
   - destruct r as [r|].
@@ -640,12 +650,7 @@ Proof.
 Qed.
 
 (* ---------------------------------------------------------------- objects *)
-Fixpoint norm_props_from (env : enum_env) (idx : N) (ds : list prop) : list rprop :=
-  match ds with
-  | [] => []
-  | d :: r => norm_prop env idx d :: norm_props_from env (idx + 1)%N r
-  end.
-Definition norm_object (env : enum_env) (ds : list prop) : list rprop := norm_props_from env 0%N ds.
+(* norm_props_from / norm_object / norm_root: model/RulesRead.v *)
 
 Lemma c04_props_from env ds : forall idx os,
   zero_std env = true ->
@@ -697,8 +702,6 @@ Proof. apply c04_props_from_exact. Qed.
 
 (* ---------------------------------------------------------------- root schemas *)
 (* the root schema a declaration denotes: kind, name and description as declared, the properties in normal form *)
-Definition norm_root (env : enum_env) (d : root_decl) : rroot :=
-  RR (rd_kind d) (rd_name d) (rd_desc d) (norm_object env (rd_props d)).
 
 Theorem c04_root env d o :
   zero_std env = true -> rt_root d = true ->
